@@ -76,3 +76,33 @@ fn c12_local_histogram_vec_remove() {
     assert!(child.get_sample_count() == 1, "C12.LocalHistogramVec: a flush after the removal added something");
     core::mem::forget((lv, vec, child, r));
 }
+
+// NOT REGISTERED either: even this fully concrete variant passed 45 GB after ~5 min and was stopped.
+//@ id: c12_local_histogram_vec_remove_orphan
+//@ prop: C12
+//@ tier: off
+//@ strength: enumerated(one label, one bucket [1.0], one cached local holding the observation 0.5, shared child already removed by someone else)
+//@ fn: histogram::LocalHistogramVec::remove_label_values, histogram::LocalHistogramVec::flush, histogram::LocalHistogram::drop
+//@ obligation: remove_label_values(vals) for a child that someone else already removed is refused (Err) but still leaves NO cached local for vals; the removed local is dropped, which hands its pending batch to the histogram it was bound to exactly once, and a later flush of the vector adds nothing
+#[kani::proof]
+#[kani::unwind(4)]
+#[kani::stub(alloc::fmt::format, stub_format)]
+fn c12_local_histogram_vec_remove_orphan() {
+    let vec = mk_hist_vec();
+    let mut b = Vec::with_capacity(1);
+    b.push(1.0);
+    let child = Histogram { core: Arc::new(mk_core(b)) };
+    let h = vec.v.hash_label_values(&["x"]).unwrap();
+    let lh = child.local();
+    lh.observe(0.5);
+    let mut local = HashMap::default();
+    local.insert(h, lh);
+    let mut lv = LocalHistogramVec { vec: MetricVec { v: vec.v.clone() }, local };
+    let r = lv.remove_label_values(&["x"]);
+    assert!(r.is_err(), "C12.LocalHistogramVec.remove_label_values: Ok for a child that no longer exists");
+    assert!(lv.local.len() == 0, "C12.LocalHistogramVec.remove_label_values: the cached local survived the removal");
+    assert!(child.get_sample_count() == 1 && child.get_sample_sum() == 0.5, "C12.LocalHistogramVec.remove_label_values: dropping the removed local did not hand over exactly its pending batch");
+    lv.flush();
+    assert!(child.get_sample_count() == 1, "C12.LocalHistogramVec: a flush after the removal added something");
+    core::mem::forget((lv, vec, child, r));
+}
